@@ -35,6 +35,11 @@ CHECKS = {
         text="Every recorded state of every operator sequence (single/multi, pflood, mst basic/carve, repeated updates, masks, looped borders, meshes): donor table is the inverse of the receiver table as bags over distinct nodes, counts within table widths and indices in range, dfs order is a permutation with every receiver before its donors, bfs order is a permutation cut into non-empty strictly increasing levels with every receiver in a strictly earlier level.",
         note="Pure discrete check, exact. Bounded by the sampled worlds (<= 8x8).",
         ref="5-C06"),
+    "C07": dict(
+        technique="TLA+ Grid specification (NeighSeq from geometry: one step under the connectivity, wrap-around only on looped axes) vs every accessor, validated by TLC on recorded query histories (GridTrace); spec-level symmetry and degree table checked by TLC",
+        text="Complete over raster shapes 2..4 x 2..4 (2..5 thorough) x rook/queen/bishop x 4 looping combinations x spacings {1x1, 2x3, 5x1} x power-of-two scales, and profiles 2..6 looped or not: every node is queried through count / indices / indices-into-buffer / distances / neighbor structs / (row, col) overloads on a cached and a cache-less instance, in shuffled order with repeated single-accessor queries; TLC compares every answer, as a bag of (index, squared distance, status) entries, with the specification's geometric answer, checks that the accessors agree position by position, that the relation is symmetric (as bags: size-2 looped axes list a node twice) and that the degree follows the node's position.",
+        note="Distances are compared through round(d^2 / 4^sc) (exact for integer spacings times a power of two). The specification has no hidden state, so cache on = cache off and order independence follow from every single answer being the geometric one.",
+        ref="5-C07"),
     "C09": dict(
         technique="TLA+ FlowGraph specification without hidden state: memo variable makes UpdateRoutes/Accumulate/Basins functional in their inputs; TLC validates recorded call histories; PFloodTwice model checks tie-break independence",
         text="Recorded histories (<= ~40 calls: update_routes, set_mask, set_base_levels in permuted insertion orders, exponent changes, accumulate, basins, repeated calls, revisits of earlier inputs, then a fresh object with the same inputs) are validated by TLC against a specification in which the observation (returned elevation, receivers, counts, distance/weight bit patterns as ranks, donors, dfs/bfs/levels, accumulation, basins) is a function of (operators+parameters, elevation, mask, base-level set): any two observations with equal inputs inside one history must be identical, and the argument array must be bit-identical after the call.",
@@ -50,16 +55,51 @@ CHECKS = {
         text="MC: ExactlyOnce, NoDataRace, MutexOK, TypeOK and Termination (weak fairness per thread) hold on all interleavings of caller programs in the library's call grammar (2 workers quick; 3-4 workers, resizes, several runs per cycle thorough); the models with relaxed flag accesses / unlocked notify are rejected (negative controls: data race, lost wake-up). Blocks: PartitionOK on every (first,last,n,min) tuple up to (16,6,6) quick / (40,12,12) thorough, each replayed through the real blocks class. Binding: 150+ (3000 thorough) random programs x PCT schedules executed by the real pool with one thread running between two hook points; TLC accepts the trace only if every granted step is the model action at that program point (lock acquisitions, flag stores/loads with the scanned index, waits, notifies, joins), callbacks run exactly the Blocks-specification ranges once, run_blocks returns only when the model is back at idle, and no schedule hangs (steered lost-wake-up schedules included).",
         note="The C++ memory model is represented by release/acquire version ghosts (no stale reads of relaxed atomics, no out-of-thin-air); under the controlled scheduler executions are sequentially consistent, so the data-race clause on the real code is observed by ThreadSanitizer on free-running executions of the same programs (trusted observer). Spurious condition-variable wake-ups are outside the model and make a run inconclusive. Pool sizes <= 4.",
         ref="5-C11"),
+    "C12": dict(
+        technique="TLA+ erosion contract (FlowContract!Spl*) on ulp-ranks, validated by TLC on recorded spl_eroder steps over every kind of routed graph, with eroder objects reused while the graph changes",
+        text="Every recorded erode() call (single/multi graphs, resolved or not, masks, moved base levels, K scalar/array incl. 0, m in {0,0.4,0.5,1}, n in {0.5,0.8,1,1.5,2,3}, dt over 9 decades, elevation = returned or input field; one eroder object serving several steps while nodes become terminal / masked / lakes): constructor refuses exactly n != 1 on a multiple-direction graph; erosion finite; bit-zero at terminals, masked nodes and lakes (h <= lowest post-erosion receiver elevation, the comparison the property states, on ranks); new elevation not above the old one beyond two ulps; an eroded node is not lowered below its lowest receiver (up to two ulps of its own magnitude, the rounding of the returned erosion).",
+        note="Products K dt A^m are kept finite (< 1e150: beyond that the Newton loop of the library does not terminate, recorded in DESIGN.md as outside the documented domain).",
+        ref="5-C12"),
+    "C13": dict(
+        technique="exact cases: the post-erosion surface is chosen first (integers), TLC verifies in integer arithmetic that it solves the implicit equation for the derived input, then that the erosion returned by the real eroder encloses it (Q(20), slack from the Newton tolerance accumulated along the receiver path)",
+        text="Chains (profiles, spacing 1 or 4) and trees (2x2..3x4 rook rasters): h'_i integers without ties, receivers from routing on h', input h_i = h'_i + f_i (h'_i - h'_r)^n with f_i = K_i dt A_i^m / d^n an integer, n in {1/2, 1, 2, 3}, m in {0,1,2}, per-node K and drainage area, tolerances 1e-3 and 1e-6. For every node not at the limiter's value TLC checks |e_i - (h_i - h'_i)| <= (depth+1)(tol + 4 units of 2^-20).",
+        note="Bounded by design (DESIGN.md section 7): structural errors (exponent classification, exit tests, distance/area/weight placement, old vs new receiver elevation) are detected; accuracy for arbitrary real exponents is not claimed. Nodes at the limiter's value are excluded, as in the property.",
+        ref="5-C13"),
+    "C14": dict(
+        technique="TLA+ ADI specification: the two tridiagonal systems in residual form with integer coefficients; both half steps of the real eroder (intermediate field through a guarded hook) validated by TLC in Q(S) interval arithmetic; identities (borders, scalar vs array, linearity, status independence)",
+        text="Shapes 3..6 x 3..6 (8 thorough), spacings {1,2,3}^2, dt = p/q (p up to 1000: stiff), scalar or per-node integer diffusivity: for every interior node TLC checks the first (implicit along columns) and second (implicit along rows) half-step equations multiplied by D = 8 q dy^2 dx^2 - exact integer coefficients, residual within the quantisation of the logged Q(S) values; the systems are diagonally dominant M-matrices so the residual bounds the solution error. Borders: bit-zero erosion and untouched half step. Scalar K vs uniform array within 2 units of 2^-20; E(ax+by) = aE(x)+bE(y) within |a|+|b|+2 units of 2^-16; bit-identical under other border statuses.",
+        note="Quantisation S chosen per case so that products stay below 2^30 (coarser for stiff steps). Non-integer diffusivities are covered only through the identities.",
+        ref="5-C14"),
+    "C15": dict(
+        technique="TLA+ basin-graph contract (FlowContract!Bg*): edges = lowest passes recomputed by TLC from the recorded labels and elevation ranks, tree = spanning forest satisfying the cycle property, orientation by in-degree; validated on recorded basin_graph objects (both algorithms, repeated updates)",
+        text="Stand-alone basin_graph objects (Kruskal and Boruvka) on single-router graphs over random worlds with heavy ties, masks, interior base levels, looped borders, meshes, updated three times each, plus constructed 3 x N rasters whose channel basin has degree > 16 (Boruvka's large-degree path): exactly one edge per adjacent basin pair with an inner basin, joining neighbouring nodes of the two basins at the minimum over all such pairs of the higher elevation; virtual edges from one root to every other outer basin; tree = spanning forest (same components, nb - #components edges); every non-tree edge's ends are joined by tree edges not heavier than it (cycle property, comparisons on ranks only); Kruskal and Boruvka weight multisets equal; after orientation every basin has at most one incoming tree edge and each component one root, an outer basin where there is one.",
+        note="Worlds <= 7x7 plus 3 x 40 constructed cases. Comparisons only (exact on ranks).",
+        ref="5-C15"),
     "C16": dict(
         technique="TLA+ FlowGraph!SnapGraph/SnapElev/SnapMutate actions: snapshot state looked up in the memo of the prefix graph; TLC validates recorded histories",
         text="For sequences with graph/elevation snapshots at several positions (single and multiple direction states), the harness also runs the prefix graphs on the same inputs; TLC checks that each snapshot's receivers, counts, distance and weight bit patterns and donors equal the prefix graph's, that its own dfs/bfs/levels/donor tables satisfy C06, that accumulate and basins on the snapshot equal those on the prefix graph, that elevation snapshots equal the elevation at that point, that a later update with another input replaces (and only replaces) the snapshot, and that update_routes/set_mask/set_base_levels on a snapshot are refused.",
         note="Kernel application on snapshots is covered through the traversal-order validity (C06 conjuncts on the snapshot's own tables), not by running kernels. Sampled sequences (7 shapes of snapshot placement) and worlds.",
         ref="5-C16"),
+    "C17": dict(
+        technique="TLA+ Grid!StatusArray / GridAccepted / FilteredSeq vs the real constructors and iterators, complete enumeration validated by TLC (GridTrace); default base levels through FlowGraph!NewGraph",
+        text="Complete over the 4^4 raster border combinations x shapes {2x2, 3x3} (5 shapes thorough) and 4^2 profile combinations x n 2..5, each with no override, single-node overrides with each of the 4 statuses (sampled in quick, all in thorough), out-of-range and looped entries and pairs; meshes with default / map / array statuses: construction fails exactly when the specification says (asymmetric looped borders, looped or out-of-range override, override over a looped node), the status array equals StatusArray (corner precedence, overrides), on cached and cache-less instances; forward and reverse iteration for no filter and each of the 4 statuses equal the specification's sequences; a new flow graph's base levels are exactly the fixed-value nodes.",
+        note="Only error vs no error is compared for refusals (not the exception type).",
+        ref="5-C17"),
+    "C18": dict(
+        technique="TLA+ mesh specification in exact rationals (edges from triangles, boundary = edges of exactly one triangle, circumcentric vertex shares) vs the real trimesh, validated by TLC (GridTrace)",
+        text="Lattice meshes of 1x1..3x3 cells, either diagonal per cell, random vertex order and orientation per triangle, up to 2 triangles removed, interior points jittered (obtuse triangles), an isolated node, power-of-two scales: neighbours are exactly the nodes sharing a triangle edge (bag equality on every accessor: symmetric, no duplicates, squared distance exact), default statuses fixed-value exactly on boundary nodes, node areas equal the sum of circumcentric shares within one unit of 2^-12 per incident triangle, areas sum to the triangles' total area.",
+        note="Integer coordinates (exact squared lengths and areas); degenerate triangles are outside the domain.",
+        ref="5-C18"),
     "C19": dict(
         technique="TLA+ label contract (FlowContract!C19) evaluated by TLC on recorded basins() calls",
         text="Every recorded basins() call on single-direction graphs (all resolver variants, masks, repeated updates): masked nodes carry the reserved label, every unmasked node has its receiver's label, outlets are labelled 0..k-1 in bottom-up order, number of labels = number of unmasked outlets, outlets()/pits() are exactly the outlets / the outlets that are not base levels.",
         note="Pure discrete check, exact.",
         ref="5-C19"),
+    "C20": dict(
+        technique="TLA+ OperatorSeq: TLC checks incremental Add == declarative Valid on every bounded sequence and writes the enumeration out; every sequence replayed through the real constructor (B1) and validated (B2)",
+        text="All sequences of length <= 3 (584; <= 4: 4680 thorough, <= 5 model-checked only) over {single, single with 2 threads, multi, pflood, mst, graph snapshot, elevation snapshot, both} on a profile, a raster and a mesh: the constructor throws exactly when the specification's Valid is false; for accepted sequences single_flow(), operator names, snapshot key lists, receiver table width (single column iff every graph-updating operator is single-direction) and, after one update, 'returns the caller's own array iff no operator edits elevation'.",
+        note="Complete for the stated bound.",
+        ref="5-C20"),
 }
 
 NOT_APPLICABLE = [
